@@ -22,7 +22,8 @@
 static int g_nes, g_cold, g_pk;
 static ABT_xstream g_self, g_xs1;
 static ABT_pool g_p0, g_p1, g_p2, g_up, g_px;
-static ABT_key g_key[3];
+static ABT_key g_key[3], g_xkey[48];
+static int g_nxkey;
 static ABT_mutex g_mx;
 static ABT_thread g_pre0, g_pre1, g_dead, g_deadu;
 static volatile int g_ran, g_cb;
@@ -514,6 +515,7 @@ typedef struct {
     const char *eff; /* documented visible effect of a successful call */
     int (*attempt)(void);
     void (*undo)(void);
+    int needs_ult; /* the routine must be called by a ULT */
 } op_t;
 static const op_t OPS[] = {
     { "init", "none", NULL, NULL }, /* ABT_init itself */
@@ -522,7 +524,7 @@ static const op_t OPS[] = {
     { "thread_create_attr", "p1", a_thread_create_attr, NULL },
     { "thread_create_xs", "p0", a_thread_create_xs, NULL },
     { "thread_create_up", "up", a_thread_create_up, NULL },
-    { "thread_create_to", "ran", a_thread_create_to, NULL },
+    { "thread_create_to", "ran", a_thread_create_to, NULL, 1 },
     { "task_create", "p1", a_task_create, NULL },
     { "task_create_unnamed", "p1", a_task_create_unnamed, NULL },
     { "task_create_xs", "p0", a_task_create_xs, NULL },
@@ -556,15 +558,50 @@ static const op_t OPS[] = {
     { "thread_attr_create", "none", a_thread_attr_create, u_thread_attr_create },
     { "timer_create", "none", a_timer_create, u_timer_create },
     { "timer_dup", "none", a_timer_dup, u_timer_dup },
-    { "key_set_self", "k2", a_key_set_self, NULL },
+    { "key_set_self", "k2", a_key_set_self, NULL, 1 },
     { "set_specific_pre", "pk", a_set_specific_pre, NULL },
     { "set_callback", "none", a_set_callback, NULL },
     { "migrate_to_pool", "none", a_migrate_to_pool, NULL },
-    { "set_main_sched_basic", "none", a_set_main_sched_basic, NULL },
-    { "set_main_sched", "none", a_set_main_sched, NULL },
+    { "set_main_sched_basic", "none", a_set_main_sched_basic, NULL, 1 },
+    { "set_main_sched", "none", a_set_main_sched, NULL, 1 },
     { "info_print", "none", a_info_print, NULL },
 };
 #define NOPS ((int)(sizeof OPS / sizeof OPS[0]))
+
+/* the routine is called by the primary ULT or, with ext=1, by an external thread
+ * (which has no local memory pools: other allocation paths) */
+static int g_ext;
+typedef struct {
+    const op_t *op;
+    int k, ret, fired;
+    long seen, leak;
+} call_t;
+static void *ext_call(void *p)
+{
+    call_t *c = (call_t *)p;
+    long live0 = abtv_ledger_live();
+    if (c->k >= 0)
+        abtv_fault_arm(c->k);
+    c->ret = c->op->attempt();
+    if (c->k >= 0) {
+        c->seen = abtv_fault_disarm();
+        c->fired = abtv_fault_fired();
+    }
+    c->leak = c->ret != ABT_SUCCESS ? abtv_ledger_live() - live0 : 0;
+    return NULL;
+}
+static void do_call(call_t *c)
+{
+    c->seen = c->leak = 0;
+    c->fired = 0;
+    if (g_ext && !c->op->needs_ult) {
+        pthread_t th;
+        pthread_create(&th, NULL, ext_call, c);
+        pthread_join(th, NULL);
+    } else {
+        ext_call(c);
+    }
+}
 
 /* ---------------------------------------------------------------- observation */
 static void snap(const char *tag)
@@ -646,6 +683,11 @@ static int cycle(const op_t *op, int k, uint64_t var)
         setenv("ABT_MEM_STACK_PAGE_SIZE", "65536", 1);
         setenv("ABT_MEM_PAGE_SIZE", "4096", 1);
         setenv("ABT_MEM_LP_ALLOC", (var / 2) % 2 ? "mmap_rp" : "malloc", 1);
+        /* a key table that does not fit into a descriptor is malloc'ed */
+        if ((var / 64) % 2)
+            setenv("ABT_KEY_TABLE_SIZE", "64", 1);
+        else
+            unsetenv("ABT_KEY_TABLE_SIZE");
     }
     /* ---- ABT_init (the routine under fault when op->attempt == NULL) */
     if (!op->attempt) {
@@ -683,6 +725,13 @@ static int cycle(const op_t *op, int k, uint64_t var)
     for (int i = 0; i < 3; i++)
         CHK(ABT_key_create(key_dtor, &g_key[i]));
     CHK(ABT_key_set(g_key[0], (void *)(intptr_t)77));
+    /* the primary ULT's key table holds a varying number of entries: the next
+     * ABT_key_set may need a new chunk of entries */
+    g_nxkey = g_cold ? (int)((var / 128) % 48) : 0;
+    for (int i = 0; i < g_nxkey; i++) {
+        CHK(ABT_key_create(NULL, &g_xkey[i]));
+        CHK(ABT_key_set(g_xkey[i], (void *)(intptr_t)(100 + i)));
+    }
     CHK(ABT_mutex_create(&g_mx));
     CHK(ABT_mutex_attr_create(&g_mattr));
     CHK(ABT_mutex_attr_set_recursive(g_mattr, ABT_TRUE));
@@ -727,7 +776,9 @@ static int cycle(const op_t *op, int k, uint64_t var)
          * caches (memory pools) are in the state the faulted call will find */
         warm = 1;
         g_obj = NULL;
-        CHK(op->attempt());
+        call_t w = { op, -1, 0, 0, 0, 0 };
+        do_call(&w);
+        CHK(w.ret);
         if (op->undo)
             op->undo();
         settle();
@@ -742,19 +793,20 @@ static int cycle(const op_t *op, int k, uint64_t var)
     g_ran = 0;
     if (op->attempt) {
         snap("base");
-        long live0 = abtv_ledger_live();
         g_obj = NULL;
-        abtv_fault_arm(k);
-        int r = op->attempt();
-        long seen = abtv_fault_disarm();
-        fired = abtv_fault_fired();
-        long leak = r != ABT_SUCCESS ? abtv_ledger_live() - live0 : 0;
+        call_t c = { op, k, 0, 0, 0, 0 };
+        do_call(&c);
+        int r = c.ret;
+        long seen = c.seen, leak = c.leak;
+        fired = c.fired;
         EV("\"e\":\"Op\",\"op\":\"%s\",\"eff\":\"%s\",\"k\":%d,\"fired\":%d,\"ret\":%d,\"code\":%d,\"h\":\"%s\",\"leak\":%ld,\"warm\":%d,\"nreq\":%ld", op->name, op->eff, k,
            fired, r != ABT_SUCCESS, r, g_h, leak, warm, seen);
         snap("after");
         if (r != ABT_SUCCESS) {
             g_obj = NULL;
-            r = op->attempt();
+            call_t c2 = { op, -1, 0, 0, 0, 0 };
+            do_call(&c2);
+            r = c2.ret;
             EV("\"e\":\"Op\",\"op\":\"%s\",\"eff\":\"%s\",\"k\":0,\"fired\":0,\"ret\":%d,\"code\":%d,\"h\":\"%s\",\"leak\":0,\"warm\":%d,\"nreq\":0", op->name, op->eff,
                r != ABT_SUCCESS, r, g_h, warm);
             snap("retry");
@@ -782,6 +834,8 @@ static int cycle(const op_t *op, int k, uint64_t var)
     CHK(ABT_mutex_free(&g_mx));
     for (int i = 0; i < 3; i++)
         CHK(ABT_key_free(&g_key[i]));
+    for (int i = 0; i < g_nxkey; i++)
+        CHK(ABT_key_free(&g_xkey[i]));
     if (g_nes) {
         CHK(ABT_xstream_join(g_xs1));
         CHK(ABT_xstream_free(&g_xs1));
@@ -802,6 +856,7 @@ static void scenario(const char *name, uint64_t seed)
     (void)name;
     g_nes = (int)opt_long("nes", 0);
     g_cold = (int)opt_long("cold", 0);
+    g_ext = (int)opt_long("ext", 0);
     long only = opt_long("op", -1);
     const op_t *op = &OPS[only >= 0 ? (uint64_t)only : seed % NOPS];
     uint64_t var = abtv_rand() >> 8; /* variations: pool kinds, stack provenance, memory-pool fill level */
